@@ -8,6 +8,9 @@ per import, ``Cxx-I<owner>``), with the consequence for the dependent property. 
 the clause of the dependent property that fails when the imported rules fail.  Imports are not transitive (the owner's own
 ``run`` is executed, not this table), so the graph has no cycles."""
 
+# the rules of C17 about header lines and the read-ahead helper (C17-R8 concerns the content path only)
+C17_HEADER = ('C17-R1', 'C17-R2', 'C17-R3', 'C17-R4', 'C17-R5', 'C17-R6', 'C17-R7')
+
 IMPORTS = {
     'C01': [('C17', None, 'the reader takes its header lines through the read-ahead helper: bytes lost, duplicated or merged at a chunk '
              'boundary change the records read back from what was written'),
@@ -48,11 +51,11 @@ IMPORTS = {
              'silently dropped instead of being reported as a parse error')],
     'C10': [('C08', ('C08-R1b',), 'an order the hierarchy forbids must be rejected *with a parse error*: a rejection by the streaming reader '
              'that surfaces from the object-model load as another exception is not that'),
-            ('C17', None, 'section ids are read from header lines delivered by the read-ahead helper: a line lost or merged at a chunk '
+            ('C17', C17_HEADER, 'section ids are read from header lines delivered by the read-ahead helper: a line lost or merged at a chunk '
              'boundary makes a legal order rejected or an illegal one accepted')],
     'C11': [('C06', ('C06-R3',), 'accepted options are reported verbatim - also by the object-model load, which must store what the header '
              'parser accepted (minus length) and nothing else'),
-            ('C17', None, 'the header grammar is applied to the line the read-ahead helper returns: a terminator missed at a chunk boundary '
+            ('C17', C17_HEADER, 'the header grammar is applied to the line the read-ahead helper returns: a terminator missed at a chunk boundary '
              'changes which lines are accepted')],
     'C12': [('C06', ('C06-R3',), 'the object-model load must carry every option of the header (minus length) into the section: a filter or '
              'a merge there drops or overrides unknown options'),
@@ -60,7 +63,7 @@ IMPORTS = {
              'interpreted only where the per-kind table says so'),
             ('C08', ('C08-R1b',), 'loading a file through the object model must not fail (or overwrite an attribute) because of the *name* of '
              'an option the library does not know'),
-            ('C17', None, 'unknown options make header lines long: a line that straddles a read chunk must come back whole, or the options '
+            ('C17', C17_HEADER, 'unknown options make header lines long: a line that straddles a read chunk must come back whole, or the options '
              'delivered differ')],
     'C13': [('C14', None, 'the statistics are the totals of the hunk parser: wrong geometry / totals / tolerated garbage give wrong counts'),
             ('C16', None, 'the hunk parser is fed the lines of split_lines: lost or fabricated lines change the counts')],
